@@ -528,7 +528,21 @@ func (e *Engine) ipStrEq(a, b Str) *Term {
 		}
 		return r
 	}
-	panic(e.unsupported("comparison of a symbolic IP string with a non-IP string"))
+	// one side is the text of symbolic address bytes, the other an ordinary string: they can only
+	// be equal if the ordinary string has the length of some address text ("0.0.0.0" ..
+	// "255.255.255.255" for 4 bytes, "::" .. the longest IPv6/mapped form for 16)
+	ip, other := a, b
+	if ip.IP == nil {
+		ip, other = b, a
+	}
+	lo, hi := 7, 15
+	if len(ip.IP) == 16 {
+		lo, hi = 2, 45
+	}
+	if n := other.Len(); n < lo || n > hi {
+		return e.tb.False
+	}
+	panic(e.unsupported("comparison of a symbolic IP string with a non-IP string of a plausible length"))
 }
 
 // ipCanon maps 4-byte addresses to their 16-byte v4-in-v6 form (as net.IP equality does).
